@@ -104,6 +104,7 @@ pub fn gen_writer_plan(rng: &mut Rng) -> WriterPlan {
     eintr_every: if rng.chance(300) { 1 + rng.below(3) as u32 } else { 0 },
     eintr_burst: 1 + rng.below(3) as u32,
     zero_at: if rng.chance(60) { Some(rng.below(20)) } else { None },
+    transient: rng.chance(400),
   }
 }
 
